@@ -6,65 +6,29 @@
    which is empty here; the deciders still carry the `unknown` parameter), `roots` other than
    the default [()], the progress callback. *)
 From Coq Require Import NArith List Bool.
-From DvcData Require Import Base.Val Model.Trie.
+From DvcData Require Import Base.Val Base.PyBase Gen.PyTypes Gen.IDiff Model.Trie.
 Import ListNotations.
 Open Scope N_scope.
 
-Inductive typ := Add | Modify | Rename | Delete | Unchanged | Unknown.
-
-Definition typ_eqb (a b : typ) : bool :=
-  match a, b with
-  | Add, Add | Modify, Modify | Rename, Rename | Delete, Delete
-  | Unchanged, Unchanged | Unknown, Unknown => true
-  | _, _ => false
-  end.
+(* The change kinds and the three deciders are the GENERATED ones (Gen/IDiff.v, re-translated from
+   index/diff.py on every run): an edit of _diff_meta / _diff_hash_info / _diff_entry changes
+   [diff_meta] / [diff_hash_info] / [diff_entry] below and therefore every proof about them
+   (Proofs/IndexDiffProofsBase.v proves the characterisation table against the generated text). *)
+Definition typ := ichange.
+Notation Add := ichange_ADD.
+Notation Modify := ichange_MODIFY.
+Notation Rename := ichange_RENAME.
+Notation Delete := ichange_DELETE.
+Notation Unchanged := ichange_UNCHANGED.
+Notation Unknown := ichange_UNKNOWN.
+Definition typ_eqb : typ -> typ -> bool := ichange_eqb.
 
 Definition is_none {A} (o : option A) : bool := match o with None => true | Some _ => false end.
 Definition is_some {A} (o : option A) : bool := negb (is_none o).
 
 (* meta_cmp_key : Optional[Callable[[Optional[Meta]], Any]]; the result is compared with !=,
-   here projected to a list of numbers *)
-Definition cmp_key := option (option meta -> list N).
-
-(* GEN-CANDIDATE: index/diff.py:_diff_meta *)
-Definition diff_meta (old new : option meta) (cmp : cmp_key) : typ :=
-  if is_none old && is_some new then Add
-  else if is_some old && is_none new then Delete
-  else if is_none cmp && negb (opt_eqb meta_eqb old new) then Modify
-  else if match cmp with
-          | Some f => negb (list_N_eqb (f old) (f new))
-          | None => false
-          end then Modify
-  else Unchanged.
-
-(* GEN-CANDIDATE: index/diff.py:_diff_hash_info *)
-Definition diff_hash_info (old new : option hashinfo) : typ :=
-  if negb (hi_truthy old) && hi_truthy new then Add
-  else if hi_truthy old && negb (hi_truthy new) then Delete
-  else if hi_truthy old && hi_truthy new && negb (opt_eqb hashinfo_eqb old new) then Modify
-  else Unchanged.
-
-(* GEN-CANDIDATE: index/diff.py:_diff_entry *)
-Definition diff_entry (old new : option ientry) (hash_only meta_only : bool) (meta_cmp_key : cmp_key)
-           (unknown : bool) : typ :=
-  if unknown then Unknown else
-  let old_hi := match old with Some e => e_hash e | None => None end in
-  let new_hi := match new with Some e => e_hash e | None => None end in
-  let old_meta := match old with Some e => e_meta e | None => None end in
-  let new_meta := match new with Some e => e_meta e | None => None end in
-  let meta_diff := diff_meta old_meta new_meta meta_cmp_key in
-  let hi_diff := diff_hash_info old_hi new_hi in
-  let entry_diff :=
-    if is_none old && is_some new then Add
-    else if is_some old && is_none new then Delete
-    else Unchanged in
-  if meta_only then meta_diff else
-  if hash_only then hi_diff else
-  if negb (typ_eqb entry_diff Unchanged) then entry_diff else
-  if typ_eqb meta_diff Unchanged && is_none old_meta then hi_diff else
-  if typ_eqb hi_diff Unchanged && negb (hi_truthy old_hi) then meta_diff else
-  if typ_eqb meta_diff hi_diff && typ_eqb hi_diff entry_diff then meta_diff else
-  Modify.
+   here projected to a number (the translator's type for it) *)
+Definition cmp_key := option (option meta -> N).
 
 (* ---- options, changes ------------------------------------------------------------------ *)
 Record opts := {
@@ -105,10 +69,10 @@ Definition info_entry (inf : option info) : option ientry :=       (* (old_info 
 Definition info_isdir (inf : option info) : bool :=                (* .get("type") == "directory" *)
   match inf with Some (d, _) => d | None => false end.
 Definition entry_hashed (e : option ientry) : bool :=              (* entry and entry.hash_info *)
-  match e with Some e0 => hi_truthy (e_hash e0) | None => false end.
+  match e with Some e0 => hi_truthy (e_hash_info e0) | None => false end.
 Definition entry_hash_isdir (e : option ientry) : bool :=          (* e and e.hash_info and e.hash_info.isdir *)
   match e with
-  | Some e0 => hi_truthy (e_hash e0) && match e_hash e0 with Some h => hi_isdir h | None => false end
+  | Some e0 => hi_truthy (e_hash_info e0) && match e_hash_info e0 with Some h => hi_isdir h | None => false end
   | None => false
   end.
 
@@ -189,7 +153,7 @@ Definition is_del (c : change) : bool := typ_eqb (c_typ c) Delete.
 Definition is_other (c : change) : bool := negb (is_add c) && negb (is_del c).
 
 Definition side_hash (s : option (key * ientry)) : option hashinfo :=   (* x.hash_info if x else None *)
-  match s with Some (_, e) => e_hash e | None => None end.
+  match s with Some (_, e) => e_hash_info e | None => None end.
 
 Definition change_leb (a b : change) : bool := key_leb (change_key a) (change_key b).
 
@@ -267,7 +231,7 @@ Definition flat_side (s : option (key * ientry)) : list N :=
   | None => [0]
   | Some (k, e) =>
       1 :: flat_key k
-        ++ match e_hash e with None => [0] | Some h => 1 :: flat_optbytes (h_value h) end
+        ++ match e_hash_info e with None => [0] | Some h => 1 :: flat_optbytes (hi_value h) end
         ++ match e_meta e with None => [0] | Some m => [1; if m_isdir m then 1 else 0] end
   end.
 (* one change as one string of numbers; the multiset of changes is the sorted list of strings *)
@@ -288,17 +252,16 @@ Definition enc_typ (t : typ) : val := VN (typ_code t).
 (* ---- compact input constructors used by the generated correspondence cases --------------------- *)
 Definition M (isdir : bool) (size nfiles : option N) (isexec : bool) (md5 : option (list N))
            (mtime : option N) : meta :=
-  {| m_isdir := isdir; m_size := size; m_nfiles := nfiles; m_isexec := isexec; m_version_id := None;
-     m_etag := None; m_checksum := None; m_md5 := md5; m_inode := None; m_mtime := mtime |}.
-Definition H (n v : option (list N)) : hashinfo := {| h_name := n; h_value := v |}.
+  mk_meta isdir size nfiles isexec None None None md5 None mtime None false None 1.
+Definition H (n v : option (list N)) : hashinfo := mk_hashinfo n v None.
 Definition E (m : option meta) (h : option hashinfo) : ientry :=
-  {| e_meta := m; e_hash := h; e_loaded := None |}.
+  mk_ientry None m h None.
 
 (* meta_cmp_key = lambda m: (m.isdir, m.isexec) if m else None *)
-Definition cmp_isdir_isexec : option meta -> list N :=
+Definition cmp_isdir_isexec : option meta -> N :=
   fun m => match m with
-           | None => []
-           | Some x => [1; if m_isdir x then 1 else 0; if m_isexec x then 1 else 0]
+           | None => 0
+           | Some x => 1 + (if m_isdir x then 2 else 0) + (if m_isexec x then 4 else 0)
            end.
 
 (* option sets as bit codes: 1 with_renames, 2 with_unchanged, 4 hash_only, 8 meta_only,
